@@ -509,7 +509,7 @@ def run_pattern(args):
             obs += history_obligations(rec, guards, tier, [pname])
         envs = [{f'g{i}{j}': F(v) for (i, j), v in gr.DESIGNED_GAMMA[w].items()} for w in (0, 1)]
         rungs = [dict(name='full', envs=[None], timeout=30 if tier == 'quick' else 200),
-                 dict(name='slices:metric-value-fixed', envs=envs, timeout=60 if tier == 'quick' else 400)]
+                 dict(name='slices:metric-value-fixed', envs=envs, timeout=200 if tier == 'quick' else 600)]
         solve_ladder(obs, rungs, sampler=_sampler, rng=random.Random(seed), workers=2)
     out = []
     for ob in obs:
